@@ -594,7 +594,8 @@ impl ValueMeta for Expression {
                 None => false,
             },
             Number(meta, value) => {
-                let value = FieldElement { value: value.clone() };
+                // Literals denote field elements, so they are reduced modulo the prime.
+                let value = FieldElement { value: &*value % env.prime() };
                 meta.value_knowledge_mut().set_reduces_to(value)
             }
             Call { args, .. } => {
